@@ -272,6 +272,11 @@ class RW:
         return seq
 
     # -- mutations (real + model) ----------------------------------------------
+    def order_of(self, x):
+        """A small stable number for a specification of this world (order of first use)."""
+        t = self.__dict__.setdefault('_order', {})
+        return t.setdefault(id(x), len(t))
+
     def seq(self, req):
         """The required specifications as the caller may hand them over: any iterable, also one that can be walked
         only once (generators, map objects, iterators)."""
@@ -1084,9 +1089,24 @@ def run_c05(ctx, rng, job):
 
     D = object()
 
+    class Unordered(tuple):
+        # a caller's own sequence type whose notion of equality is coarser than a tuple's (an unordered pair): to the
+        # registry it is a sequence of specifications like any other
+        def __eq__(self, other):
+            return isinstance(other, tuple) and sorted(map(id, self)) == sorted(map(id, other))
+
+        def __ne__(self, other):
+            return not self.__eq__(other)
+
+        def __hash__(self):
+            return hash(frozenset(map(id, self)))
+
     def ask(rs, q):
         ep, ri, req, prov, name, obs = q
         r = rs[ri]
+        if req is not None and rs is w.regs and len(req) >= 2 and (len(ep) + len(name) + sum(w.order_of(x) for x in req)) % 2 == 0:
+            req = Unordered(req)
+            ctx.count('lookups_with_a_tuple_subclass_of_coarser_equality')
         if ep == 'lookup':
             return r.lookup(req, prov, name, D)
         if ep == 'lookup1':
@@ -1252,6 +1272,11 @@ def run_c05(ctx, rng, job):
                 ctx.count('mutations_in_a_burst')
                 k = k2
         qs = seen[-14:] + [(newq(), None) for _ in range(4)]
+        # the same specifications in another order are another key
+        for q0, _p in list(qs):
+            if q0[2] is not None and len(q0[2]) == 2 and q0[2][0] is not q0[2][1] and rng.random() < 0.5:
+                qs.append(((q0[0], q0[1], (q0[2][1], q0[2][0]), q0[3], q0[4], q0[5]), None))
+                ctx.count('probes_with_required_in_swapped_order')
         cr = cold()
         nxt = []
         for q, prev in qs:
